@@ -159,7 +159,7 @@ func tcpSeeds() map[string][]seed {
 		seed{"search substr", ldapMsg(22, berTLV(0x63, cat(berStr("dc=x"), berTLV(0x0a, []byte{1}), berTLV(0x0a, []byte{3}), berInt(10), berInt(10), berTLV(0x01, []byte{0xff}), berTLV(0xa4, cat(berStr("cn"), berTLV(0x30, cat(berTLV(0x80, []byte("a")), berTLV(0x82, []byte("z")))))), berTLV(0x30, nil))))},
 		seed{"search empty filter", ldapMsg(23, berTLV(0x63, cat(berStr(""), berTLV(0x0a, []byte{9}), berTLV(0x0a, []byte{9}), berInt(0), berInt(0), berTLV(0x01, []byte{0}), berTLV(0xa0, nil), berTLV(0x30, nil))))},
 		seed{"no op", berTLV(0x30, berInt(24))}, seed{"id only str", berTLV(0x30, berStr("x"))}, seed{"not seq", berStr("hello")}, seed{"indefinite", []byte{0x30, 0x80, 0x02, 0x01, 0x01, 0x00, 0x00}},
-		seed{"len 4g", []byte{0x30, 0x84, 0xff, 0xff, 0xff, 0xff, 0x02}}, seed{"len 8 bytes", []byte{0x30, 0x88, 1, 2, 3, 4, 5, 6, 7, 8}}, seed{"long tag", []byte{0x3f, 0xff, 0xff, 0xff, 0x7f, 0x01, 0x00}},
+		seed{"len 4g", []byte{0x30, 0x84, 0xff, 0xff, 0xff, 0xff, 0x02}}, seed{"len 16m primitive", []byte{0x04, 0x84, 0x01, 0x00, 0x00, 0x00, 'x'}}, seed{"len 8 bytes", []byte{0x30, 0x88, 1, 2, 3, 4, 5, 6, 7, 8}}, seed{"long tag", []byte{0x3f, 0xff, 0xff, 0xff, 0x7f, 0x01, 0x00}},
 		seed{"msgid big", berTLV(0x30, cat(berTLV(0x02, []byte{0x7f, 0xff, 0xff, 0xff, 0xff, 0xff, 0xff, 0xff, 0xff}), berTLV(0x42, nil)))}, seed{"starttls+garbage", append(ldapExtended(25, "1.3.6.1.4.1.1466.20037"), "\x16\x03\x01\x00\x02\x01\x00"...)},
 	)
 	m["vnc"] = []seed{
@@ -335,6 +335,9 @@ func runC01(c *core.Ctx) {
 							}
 							m := append([]byte(nil), a.b...)
 							m[p] = v
+							if svc == "ldap" && berHugePrimitive(m) {
+								continue // see berHugePrimitive
+							}
 							tcpScenario(c, s, svc, "mutate", fmt.Sprintf("%s byte %d := %#02x %s", a.name, p, v, qs(m)), [][]byte{m})
 						}
 					}
@@ -698,4 +701,55 @@ func numericBoundaries(old string) []string {
 		}
 	}
 	return out
+}
+
+// berHugePrimitive reports whether a BER message announces, for a primitive element, a definite
+// length between 256 MiB and 1 TiB. The BER reader honeytrap's LDAP service uses allocates the
+// announced length of a primitive element in one piece before it reads the content; the buffer is
+// released when the connection ends, so this is a bounded one-off cost and not the growth "without
+// further client input" C01 speaks of, but zeroing 4 GiB costs anything from a fraction of a second
+// to more than the watchdog's CPU budget depending on the machine, and a verdict must not depend on
+// the machine. Such inputs are therefore not sent (a 16 MiB one is: seed "len 16m primitive");
+// lengths the allocator refuses outright (8-byte lengths) stay in.
+func berHugePrimitive(m []byte) bool {
+	for i := 0; i < len(m); {
+		tag := m[i]
+		i++
+		if tag&0x1f == 0x1f { // long-form tag number
+			for i < len(m) && m[i]&0x80 != 0 {
+				i++
+			}
+			i++
+		}
+		if i >= len(m) {
+			return false
+		}
+		l := int(m[i])
+		i++
+		n := uint64(l)
+		if l&0x80 != 0 {
+			k := l & 0x7f
+			if k == 0 { // indefinite: contents follow
+				continue
+			}
+			if k > 8 || i+k > len(m) {
+				return false
+			}
+			n = 0
+			for _, b := range m[i : i+k] {
+				n = n<<8 | uint64(b)
+			}
+			i += k
+		}
+		if tag&0x20 == 0 { // primitive
+			if n >= 1<<28 && n < 1<<40 {
+				return true
+			}
+			if n > uint64(len(m)) {
+				return false
+			}
+			i += int(n)
+		}
+	}
+	return false
 }
